@@ -118,6 +118,8 @@ class SymDict(SymBase):
         d._v = list(self._v)
         return d
 
+    __copy__ = copy
+
     def update(self, other=(), **kw):
         if isinstance(other, (dict, SymDict)):
             for k, v in other.items():
